@@ -151,7 +151,8 @@ def _check_case(case, res, count=True):
     for n in g.nodes:
         r = rng.random()
         if r < 0.1:
-            n.extras = rng.choice([{'x': 1}, {'pos': {'x': 1, 'y': 2.5}}, {'note': 'n', 'l': [1, 2]}])
+            n.extras = rng.choice([{'x': 1}, {'pos': {'x': 1, 'y': 2.5}}, {'note': 'n', 'l': [1, 2]},
+                                   {'443': 'https', 'seen': {'2023': 4, '007': [1]}}, {'0': None, 'true': True, 'null': 'x', '1.5': 2}])
         if r > 0.9:
             n.tags = rng.sample(['hidden', 'suppress', 'trace', 't1', "it's", 'a b'], rng.randint(1, 3))
     if case.get('readd_node') is not None and g.nodes:
